@@ -174,8 +174,9 @@ class SymSeries:
         if attr == "apply":
             _assume("pandas Series.apply(f): f applied to every element, result aligned with the input rows")
             f = args[0]
-            sv = self.col.val
-            return self._mk(lambda r: ex.call(f, [sv(r)], {}, pc, env), self.col.null, kwargs.get("_dtype", self.col.dtype))
+            sv, pres = self.col.val, self.present
+            # obligations raised inside f (KeyError, IndexError, ...) are obligations for the rows of the series only
+            return self._mk(lambda r: ex.call(f, [sv(r)], {}, pc + [pres(r)], env), self.col.null, kwargs.get("_dtype", self.col.dtype))
         if attr in ("copy", "to_numpy", "tolist", "to_list"):
             return self
         if attr == "astype":
@@ -331,6 +332,26 @@ class Extreme:
 
     def __deepcopy__(self, memo):
         return self
+
+
+class RowView:
+    """One row of a frame as seen by a row-wise lambda: row["col"] / row.col."""
+
+    def __init__(self, cols, r):
+        self.cols, self.r = cols, r
+
+    def __deepcopy__(self, memo):
+        return self
+
+    def hv_getitem(self, ex, idx, pc):
+        if idx not in self.cols:
+            raise Unsupported(f"row has no column {idx!r}")
+        return self.cols[idx].val(self.r)
+
+    def hv_getattr(self, ex, attr, pc):
+        if attr in self.cols:
+            return self.cols[attr].val(self.r)
+        return NotImplemented
 
 
 class FrameArray:
@@ -642,6 +663,13 @@ class SymDF:
             lab = self.cols[col].val
             newcols = self.cols if kwargs.get("drop") is False else {c: k for c, k in self.cols.items() if c != col}
             return SymDF(self.uni, newcols, self.present, lambda r: lab(r), self.name + "_si", self.order)
+        if attr == "apply" and kwargs.get("axis") == 1:
+            _assume("pandas DataFrame.apply(f, axis=1): f applied to every row (a mapping column -> value), result aligned with the rows")
+            f = args[0]
+            cols, pres = self.cols, self.present
+            def val(r):
+                return ex.call(f, [RowView(cols, r)], {}, pc + [pres(r)], env)
+            return SymSeries(self.uni, Col(val, None, kwargs.get("_dtype", "object")), self.present, "", self.label)
         if attr == "melt":
             _assume("pandas DataFrame.melt(id_vars, value_vars, var_name, value_name): one output row per (input row, value column), the id columns "
                     "repeated, var_name = the value column's name (dtype str), value_name = its value; blocks ordered by value column")
